@@ -187,12 +187,37 @@ func runScan(c ScanCase, o *vh.Obs) *vh.Failure {
 			seen1[i]++
 			mu.Unlock()
 		})
+		// the NumCPU-sized variants
+		m.ScanFloat3AttributeParallel(modeling.PositionAttribute, func(i int, v vector3.Float64) {
+			mu.Lock()
+			if v.X() != float64(i) {
+				bad = fmt.Sprintf("ScanFloat3AttributeParallel index %d got %v", i, v)
+			}
+			seen3[i] += 10
+			mu.Unlock()
+		})
+		m.ScanFloat2AttributeParallel(modeling.TexCoordAttribute, func(i int, v vector2.Float64) {
+			mu.Lock()
+			if v.X() != float64(i) {
+				bad = fmt.Sprintf("ScanFloat2AttributeParallel index %d got %v", i, v)
+			}
+			seen2[i] += 10
+			mu.Unlock()
+		})
+		m.ScanFloat1AttributeParallel("f", func(i int, v float64) {
+			mu.Lock()
+			if v != float64(i)*2 {
+				bad = fmt.Sprintf("ScanFloat1AttributeParallel index %d got %v", i, v)
+			}
+			seen1[i] += 10
+			mu.Unlock()
+		})
 		if bad != "" {
 			return vh.Failf("attribute-scan/wrong-element", "%s (pool %d, %d elements)", bad, c.Pool, cnt)
 		}
 		for i := 0; i < cnt; i++ {
-			if seen3[i] != 1 || seen2[i] != 1 || seen1[i] != 1 {
-				return vh.Failf("attribute-scan/visit-count", "pool %d, %d elements: element %d visited %d/%d/%d times by the Float3/2/1 scans", c.Pool, cnt, i, seen3[i], seen2[i], seen1[i])
+			if seen3[i] != 11 || seen2[i] != 11 || seen1[i] != 11 {
+				return vh.Failf("attribute-scan/visit-count", "pool %d, %d elements: element %d visited %d/%d/%d times by the Float3/2/1 scans (units: WithPoolSize variant, tens: NumCPU variant; want 11)", c.Pool, cnt, i, seen3[i], seen2[i], seen1[i])
 			}
 		}
 		f3 := func(i int, v vector3.Float64) vector3.Float64 { return v.Scale(float64(i) + 0.5) }
